@@ -379,10 +379,10 @@ static void crash_signature(const char* errpath, int status, char* out, size_t o
         if (p) { p += 18; size_t k = strcspn(p, " \n"); if (k > 60) k = 60; memcpy(kind, p, k); kind[k] = 0; }
         for (p = buf; (p = strstr(p, " in ")) != NULL; p += 4) {
             char* eol = strchr(p, '\n'); if (!eol) eol = p + strlen(p);
-            char* src = strstr(p, "/src/");
-            if (src && src < eol && !strstr(p, "harness")) {
-                size_t k = strcspn(p + 4, " \n"); if (k > 90) k = 90; memcpy(frame, p + 4, k); frame[k] = 0; break;
-            }
+            char saved = *eol; *eol = 0;                      /* look at this line only */
+            int hit = strstr(p, "/src/") && !strstr(p, "/harness/");
+            *eol = saved;
+            if (hit) { size_t k = strcspn(p + 4, " \n"); if (k > 90) k = 90; memcpy(frame, p + 4, k); frame[k] = 0; break; }
         }
     }
     if (WIFSIGNALED(status)) snprintf(out, outsz, "%s:sig%d@%s", WTERMSIG(status) == SIGALRM ? "hang" : (kind[0] ? kind : "crash"), WTERMSIG(status), frame[0] ? frame : "?");
